@@ -176,6 +176,26 @@ func mutateAccepted(c *fw.Case, t *pdus.Type, v *pdus.Values, img []byte) ([]byt
 			return m, "junk-after-nul"
 		}
 		return m, "plain"
+	case 8: // a NUL-terminated string longer than the width its table row names (the terminator is what ends it)
+		var cs []span
+		for _, s := range spans {
+			if s.f.Kind == "cstr" && s.end > s.start {
+				cs = append(cs, s)
+			}
+		}
+		if len(cs) == 0 {
+			return m, "plain"
+		}
+		s := cs[r.Intn(len(cs))]
+		have := s.end - s.start - 1
+		pad := s.f.W - 1 - have
+		if pad < 0 {
+			pad = 0
+		}
+		extra := nonNul(r, pad+r.Pick(1, 1, 2, 8, 40))
+		m = append(m[:s.end-1:s.end-1], append(extra, m[s.end-1:]...)...)
+		binary.BigEndian.PutUint32(m, uint32(len(m)))
+		return m, "over-long-cstring"
 	case 2: // arbitrary header length word
 		binary.BigEndian.PutUint32(m, uint32(r.Pick(0, 1, 12, len(m)-1, len(m)+1, 0x7fffffff, int(r.U32()>>1))))
 		return m, "odd-length-word"
